@@ -946,9 +946,12 @@ async def op_spawn(env, ctx, step):
 
 
 async def op_cancel(env, ctx, step):
-    task = env.tasks.get(step['task'])
+    # '<self>': the task cancels itself (cancel() called while its own runner is executing)
+    task = ctx.task if step['task'] == '<self>' else env.tasks.get(step['task'])
     if task is None:
         return 'notask'
+    if step['task'] == '<self>':
+        env.sess.stats['self_cancels'] += 1
     env.note_cancel(task, tuple(step.get('token', ())))
     task.cancel(*step.get('token', ()))
     if step.get('yield', True):
